@@ -26,5 +26,12 @@ for p in "${pids[@]}"; do wait "$p"; done
 cd "$HERE/harness"
 $CC $CFLAGS -c vsched.c -o "$OUT/obj/h_vsched.o"
 $CC $CFLAGS -c twh.c -o "$OUT/obj/h_twh.o"
-$CC $LDX -o "$OUT/twh" "$OUT"/obj/*.o -Wl,--wrap=pthread_create,--wrap=pthread_join,--wrap=gettimeofday -lm -lpthread
+$CC $LDX -o "$OUT/twh" $(ls "$OUT"/obj/*.o | grep -v '/d_') -Wl,--wrap=pthread_create,--wrap=pthread_join,--wrap=gettimeofday -lm -lpthread
+# component drivers (link the same core objects, own verif_hook, real threads)
+for d in termdrv; do
+  if [ -f "$d.c" ]; then
+    $CC $CFLAGS -c $d.c -o "$OUT/obj/d_$d.o"
+    $CC $LDX -o "$OUT/$d" $(ls "$OUT"/obj/*.o | grep -v '/h_\|/d_') "$OUT/obj/d_$d.o" -lm -lpthread
+  fi
+done
 echo "built $OUT/twh ($VARIANT)"
